@@ -12,10 +12,10 @@ from . import common, evalcommon as ec
 PROPERTY = 'C05'
 
 META = {
-    'bounds': {'quick': 'batches of <=2 designs (dim<=2), <=2 objectives with every minimise/maximise/absent assignment, 0..2 constraints, '
+    'bounds': {'quick': 'stored precision 0/2; objective returning an ndarray; batches of <=2 designs (dim<=2), <=2 objectives with every minimise/maximise/absent assignment, 0..2 constraints, '
                         'all 4 initial states, batch evaluated twice; sweep of 3 designs; scalar bridge (Evaluator.evaluate_scalar, '
                         'ScipyOpt.run with scipy.optimize.minimize replaced by an arbitrary 3-point query sequence, NLopt._function)',
-               'thorough': 'batches of <=3 designs, 2 constraints; sweep of 4; 4-point scalar sequences'},
+               'thorough': 'stored precision 0,1,2,3,12; batches of <=3 designs, 2 constraints; sweep of 4; 4-point scalar sequences'},
     'stubs': ['Problem.evaluate / evaluate_inequality_constraints -> uninterpreted functions (Ackermann form) + call log',
               'np.round(x, decimals=7) -> ROUND7(x): |ROUND7(x)-x|<=0.5e-7, multiple of 1e-7, monotone, congruent',
               'scipy.optimize.minimize (module global of artap.algorithm_scipy) -> calls the objective on an arbitrary sequence of points',
